@@ -140,6 +140,11 @@ def hostile_programs(rng):
     # object arrays / generics
     prog("generic-box", "    Box<int> b = new Box<int>(3);\n    Box<Box<int>> bb = new Box<Box<int>>(b);\n    echo(bb.v.v);\n    Box<string> s = new Box<>(\"x\");\n    echo(s.v);",
          "class Box<T> {\n    public T v;\n    public constructor(T v) -> Box<T> {\n        this.v = v;\n        return this;\n    }\n}\n")
+    prog("generic-static-self-plain", "    GBox<float> b = new GBox<float>(1.5f);\n    echo(b.v);\n    GBox<int> c = new GBox<int>(7);\n    echo(c.v);",
+         "class GBox<T> {\n    public static GBox<int> origin = new GBox<int>(0);\n    public T v;\n    public constructor(T v) -> GBox<T> {\n        this.v = v;\n        return this;\n    }\n}\n")
+    prog("generic-static-chain", "    GA<int> a = new GA<int>(1);\n    echo(a.v);",
+         "class GA<T> {\n    public static GB<T> peer = new GB<T>(2);\n    public int v;\n    public constructor(int v) -> GA<T> {\n        this.v = v;\n        return this;\n    }\n}\n"
+         "class GB<T> {\n    public static GA<T> back = null;\n    public int w;\n    public constructor(int w) -> GB<T> {\n        this.w = w;\n        return this;\n    }\n}\n")
     # declaration order
     prog("derived-before-base", "    D d = new D();\n    echo(d.f());",
          "class D extends B {\n    public constructor() -> D {\n        super();\n        return this;\n    }\n    public function f() -> int {\n        return 2;\n    }\n}\n"
